@@ -267,6 +267,10 @@ nni_taskq_sys_init(nng_init_params *params)
 bool
 nni_taskq_sys_drain(void)
 {
+	// The system task queue may not exist if initialization failed.
+	if (nni_taskq_systq == NULL) {
+		return (false);
+	}
 	return (nni_taskq_drain(nni_taskq_systq));
 }
 
